@@ -210,6 +210,24 @@ func moreCases() []*caseT {
 		}
 	})
 
+	// ---------------------------------------------------------------- headless TCP: one listener / filter chain per endpoint
+
+	add("headless-tcp", "workload-entries", func() (cfgs, cfgs) {
+		host := "headless.ns1.example"
+		base := cfgs{
+			selfSE(),
+			se("ns1", "headless", []string{host}, []*networking.ServicePort{port(9000, "tcp", "TCP"), port(80, "http", "HTTP")}, nil,
+				seSelector(kv("app", "hl")), func(s *networking.ServiceEntry) { s.Resolution = networking.ServiceEntry_NONE }),
+		}
+		return base, cfgs{
+			we("ns1", "hl-d", "10.8.0.4", "r2/z1/s1", 0, kv("app", "hl")),
+			we("ns1", "hl-a", "10.8.0.1", "r1/z1/s1", 0, kv("app", "hl")),
+			we("ns1", "hl-c", "10.8.0.3", "r1/z2/s1", 0, kv("app", "hl")),
+			we("ns1", "hl-b", "10.8.0.2", "r1/z1/s1", 0, kv("app", "hl")),
+			we("ns2", "hl-other-namespace", "10.8.0.5", "r1/z1/s1", 0, kv("app", "hl")),
+		}
+	})
+
 	// ---------------------------------------------------------------- two registries
 
 	reg := add("two-registries", "memory-and-serviceentry", func() (cfgs, cfgs) {
